@@ -573,14 +573,52 @@ def _unpoison_lib(o, k):
 
 # entries a history names explicitly (never drawn at random): content no writer accepts, so that a save fails while
 # the layers are written, and its removal.  Each is a catalogued mutator with particular data.
+def _lib_empty(o, k):
+    if not len(o):
+        return "__skip__"
+    o.clear()
+    return "clear"
+
+
+def _lib_fixed_item(o, k):
+    # the SAME edit for whichever mapping it is applied to: two mappings with equal contents stay equal
+    if o.get("com.same") == {"v": 1}:
+        return "__skip__"
+    o["com.same"] = {"v": 1}
+    return "__setitem__"
+
+
+def _rejected_assignment(attr, make):
+    """a bulk assignment (`glyph.anchors = […]`, `….guidelines = […]`) that is REJECTED at its second item (both carry the
+    same identifier): the old objects are gone, the first new one is in, the call raises"""
+    def eff(o, k):
+        ident = "dup%d" % k
+        try:
+            setattr(o, attr, [make(k, ident), make(k + 1, ident)])
+        except AssertionError:
+            return attr + "=[rejected at the second item]"
+        raise RuntimeError("the assignment with a duplicate identifier was accepted")
+    return eff
+
+
 SCRIPTED = {
-    "glyph": {"appendAnchor[no coordinates]": _poison_anchor},
-    "lib": {"__setitem__[unwritable value]": _poison_lib, "__delitem__[unwritable value]": _unpoison_lib},
+    "glyph": {"appendAnchor[no coordinates]": _poison_anchor,
+              "anchors=[rejected at the second item]": _rejected_assignment(
+                  "anchors", lambda k, i: dict(x=k, y=3, name="ra", identifier=i)),
+              "guidelines=[rejected at the second item]": _rejected_assignment(
+                  "guidelines", lambda k, i: dict(x=20 + k, y=None, angle=None, name="rg", identifier=i))},
+    "font": {"guidelines=[rejected at the second item]": _rejected_assignment(
+        "guidelines", lambda k, i: dict(x=None, y=200 + k, angle=None, name="rf", identifier=i))},
+    "lib": {"__setitem__[unwritable value]": _poison_lib, "__delitem__[unwritable value]": _unpoison_lib,
+            "clear[if not empty]": _lib_empty, "__setitem__[fixed item]": _lib_fixed_item},
 }
 
 
 # the names an entry can be recorded under besides its own (decided before the call, see _margin / _contour_op)
-VARIANTS = {"glyph": ["bottomMargin=[no vertical origin]"], "layer": ["__delitem__[glyph order unchanged]"]}
+VARIANTS = {"glyph": ["bottomMargin=[no vertical origin]", "anchors=[rejected at the second item]",
+                      "guidelines=[rejected at the second item]"],
+            "font": ["guidelines=[rejected at the second item]"],
+            "layer": ["__delitem__[glyph order unchanged]"]}
 
 
 def _standalone_glyph(k):
@@ -1241,6 +1279,22 @@ def gen_case(rng, maxops):
         ops.append(["release"] + h)
     if oheld:
         ops.append(["orelease", "font", 0])
+    # a bulk assignment that is rejected half-way, then further edits of the same object and below it
+    if rng.random() < 0.25:
+        gp = rng.randrange(1000)
+        kind, name = rng.choice([("glyph", "anchors=[rejected at the second item]"), ("glyph", "guidelines=[rejected at the second item]"),
+                                 ("glyph", "anchors=[rejected at the second item]"), ("font", "guidelines=[rejected at the second item]")])
+        ops += [["touch", kind, gp, name], ["touch", kind, gp, rng.randrange(1000)],
+                ["touch", rng.choice(["contour", "anchor", "lib"]) if kind == "glyph" else "info", gp, rng.randrange(1000)]]
+    # a hold on the whole dispatcher (everything any object posts is queued) around the SAME edit of two mappings of
+    # different owners that hold equal contents: both must be heard once the hold is released
+    if rng.random() < 0.25:
+        p1, p2 = rng.randrange(1000), rng.randrange(1000)
+        ops += [["touch", "lib", p1, "clear[if not empty]"], ["touch", "lib", p2, "clear[if not empty]"], ["ghold", "font", 0],
+                ["touch", "lib", p1, "__setitem__[fixed item]"], ["touch", "lib", p2, "__setitem__[fixed item]"]]
+        if rng.random() < 0.5:
+            ops += [["touch", rng.choice(["contour", "anchor", "info", "kerning"]), rng.randrange(1000), rng.randrange(1000)]]
+        ops += [["grelease", "font", 0]]
     # a save that FAILS while the layers are written (content no writer accepts), the content is taken out again, the
     # font is edited further and saved: what a failed save leaves behind must not cut later changes off
     if rng.random() < 0.3:
@@ -1383,9 +1437,11 @@ def run(case, want_lines):
         outs.append(Atom("ok"))
         holds = {}
 
+        gheld = [False]
+
         def active_holds():
             # (a hold on an object that a mutator has taken out of the font holds nothing back inside the font)
-            return any(n and tree.attached(j) for j, n in holds.items())
+            return gheld[0] or any(n and tree.attached(j) for j, n in holds.items())
         touched_since = []     # (node, log index) of effective changes whose propagation is still owed
         deep = False
         for step, op in enumerate(case["ops"]):
@@ -1445,7 +1501,9 @@ def run(case, want_lines):
                 try:
                     if op[0] == "touch":
                         variant = eff(obj, step)
-                        if isinstance(variant, str):
+                        if variant == "__skip__":
+                            applied = False
+                        elif isinstance(variant, str):
                             name = variant      # decided from public reads before the call (see _margin, _contour_op)
                     else:
                         applied = bool(same(obj))
@@ -1485,7 +1543,28 @@ def run(case, want_lines):
                                      error="%s: %s" % (type(e).__name__, str(e)[:200])))
                     continue
                 line = [Atom("nop")]
-            elif op[0] == "hold" and oheld_at is not None:
+            elif op[0] in ("ghold", "grelease"):
+                # a hold on everything the dispatcher is handed (no observable, no name, no observer); not nested into the
+                # other kinds of hold, and nothing that makes new objects happens inside
+                if (op[0] == "ghold") == gheld[0] or (op[0] == "ghold" and (active_holds() or oheld_at is not None)):
+                    outs.append([Atom("skip")])
+                    lines.append([Atom("skip")])
+                    continue
+                try:
+                    if op[0] == "ghold":
+                        font.dispatcher.holdNotifications()
+                    else:
+                        font.dispatcher.releaseHeldNotifications()
+                except Exception as e:
+                    outs.append([Atom("err"), Atom(type(e).__name__), op[0]])
+                    lines.append([Atom("skip")])
+                    viol.append(dict(clause="C02/hold-release-raised", signature="C02/hold-release-raised/%s" % op[0], step=step,
+                                     error="%s: %s" % (type(e).__name__, str(e)[:200])))
+                    continue
+                gheld[0] = op[0] == "ghold"
+                stats[op[0]] = stats.get(op[0], 0) + 1
+                line = [Atom(op[0])]
+            elif op[0] == "hold" and (oheld_at is not None or gheld[0]):
                 outs.append([Atom("skip")])
                 lines.append([Atom("skip")])
                 continue
